@@ -28,6 +28,16 @@ def job(j):
         if not mk_source(p, kind, size, ROOT):
             return (cid, 'skip', 'mke2fs refused this size', 0)
         with open(p, 'rb') as f: data = f.read()
+    # give inodes that have no block map of their own (fast symlink, device node, fifo, inline-data file) an external attribute block:
+    # such a block is metadata although its owner maps no blocks.  Prepared with the tree's debugfs; kept only if e2fsck still accepts the image.
+    sp = p + '.dbg'
+    big = 'V' * 300
+    open(sp, 'w').write(''.join('ea_set %s user.c19 %s\n' % (f_, big) for f_ in ('/lnk_short', '/chr', '/blk', '/fifo', '/fast', '/d/chr', '/d/fifo', '/empty', '/one')))
+    run([DEBUGFS, '-w', '-f', sp, p], timeout=60)
+    if run([E2FSCK, '-fn', p], timeout=60)[0] == 0:
+        with open(p, 'rb') as f: data = f.read()
+    else:
+        with open(p, 'wb') as f: f.write(data)
     try:
         im = Image(data); M = layout.metadata_blocks(im); t0 = xtree.tree(im)
         # e2image keeps the primary superblock/descriptors only; backup copies are outside "metadata" here (the -ra clause of the property names them as allowed to differ)
@@ -79,15 +89,15 @@ def job(j):
     return (cid, 'bad' if bad else 'ok', bad, n)
 
 def main(tier, only=None):
-    global E2IMAGE, E2FSCK, DUMPE2FS, MKE2FS, ROOT
+    global E2IMAGE, E2FSCK, DUMPE2FS, MKE2FS, ROOT, DEBUGFS
     ck = Check('C19', tier, 'model_checking')
-    E2IMAGE = tool('e2image'); E2FSCK = tool('e2fsck'); DUMPE2FS = tool('dumpe2fs'); MKE2FS = tool('mke2fs'); fsweep.init_scratch()
+    E2IMAGE = tool('e2image'); E2FSCK = tool('e2fsck'); DUMPE2FS = tool('dumpe2fs'); MKE2FS = tool('mke2fs'); DEBUGFS = tool('debugfs'); fsweep.init_scratch()
     quick = tier == 'quick'
     ROOT = os.path.join(scratch(), 'root'); os.makedirs(ROOT + '/d/e')
     for i in range(6): open(ROOT + '/d/f%d' % i, 'wb').write(bytes((i * 9 + k) & 0xff for k in range(700 * (i + 1))))
     with open(ROOT + '/sparse', 'wb') as f: f.seek(300 * 1024); f.write(b'end')
     for i in range(40): open(ROOT + '/d/e/%s%02d' % ('n' * 60, i), 'w').close()
-    os.symlink('x' * 100, ROOT + '/slow')
+    os.symlink('x' * 100, ROOT + '/slow'); os.symlink('short', ROOT + '/fast'); os.mkfifo(ROOT + '/d/fifo'); os.mknod(ROOT + '/d/chr', 0o600 | 0o020000, os.makedev(1, 3))
     jobs = [('corpus/%s' % b, 'corpus', b) for b in fsweep.CORPUS + ['needsrec']]
     for kind in (['ext4csum', 'ext2'] if quick else ['ext4csum', 'ext2', 'ext4']):
         lo = 1560 if kind == 'ext4csum' else 420
@@ -104,7 +114,7 @@ def main(tier, only=None):
             ck.violation('%s :: %s' % (cid, b[:60]), {'case': cid, 'what': b})
     ck.add(evaluations=runs, distinct_nontrivial=ok, states=len(jobs), transitions=runs, traces_validated_against_impl=runs,
            rule='source = every corpus image + a populated filesystem of every size in a 1100-block window (quick: every 3rd size plus +-1 around every multiple of 128 and 512 blocks, i.e. qcow2 L2-table and refcount-block boundaries); '
-                'per source: e2image -r, -Q, -Q then -r, -ra; oracle: metadata block set (computed by xck) byte-identical, e2fsck -fn and dumpe2fs outputs identical, qcow2->raw == raw, -ra tree identical, source unchanged',
+                'every source first gets external attribute blocks on its fast symlinks, device nodes, fifos and small files (debugfs ea_set); per source: e2image -r, -Q, -Q then -r, -ra; oracle: metadata block set (computed by xck) byte-identical, e2fsck -fn and dumpe2fs outputs identical, qcow2->raw == raw, -ra tree identical, source unchanged',
            samples=[jobs[0][0], jobs[20][0], jobs[-1][0]])
     ck.cov['sources_skipped'] = skip; ck.cov['skip_reasons'] = skipwhy
     ck.assumptions += ['size-sweep sources are made with the tree\'s own mke2fs -d; they are only used differentially (source vs image)']
